@@ -170,6 +170,7 @@ type Exec struct {
 	globalCells map[string]*Cell
 	BigWrites []BigWrite
 	Refine     []*Term // facts added only when re-solving a satisfiable obligation (counterexample refinement)
+	pdomCache  map[*ssa.Function]map[*ssa.BasicBlock]*ssa.BasicBlock
 	axiomsDone bool
 	Axioms     []*Term
 	AxiomNames []string
@@ -1025,6 +1026,20 @@ func (ex *Exec) step(st *State, fr *Frame, ins ssa.Instruction) bool {
 			return ex.jump(st, fr, succ[1])
 		}
 		c = ex.def("c", c)
+		// a condition already decided on this path (same term): only the consistent branch is feasible
+		cs, ncs := c.String(), Not(c).String()
+		for _, pcT := range st.PC {
+			ps := pcT.String()
+			if ps == cs {
+				return ex.jump(st, fr, succ[0])
+			}
+			if ps == ncs {
+				return ex.jump(st, fr, succ[1])
+			}
+		}
+		if ex.tryMerge(st, fr, c) {
+			return false
+		}
 		other := st.clone()
 		other.assume(Not(c))
 		ofr := other.top()
